@@ -127,7 +127,9 @@ theorem startTaskF_sim {x : FW} {w : World} (h : Sim x w) (env : Env) (fail : Li
   · exact ⟨h.note _ _, rfl⟩
   · split
     · exact ⟨(saveLastErrorF_sim (saveLastErrorF_sim h id) id).note _ _, rfl⟩
-    · exact ⟨((saveLastErrorF_sim h id).setExec id true).note _ _, rfl⟩
+    · split
+      · exact ⟨((saveLastErrorF_sim ((saveLastErrorF_sim h id).setExec id true) id).setExec id false).note _ _, rfl⟩
+      · exact ⟨((saveLastErrorF_sim h id).setExec id true).note _ _, rfl⟩
 
 theorem startCreatedF_sim {x : FW} {w : World} (h : Sim x w) (env : Env) (fail : List String) (id : String) (t : Task) :
     Sim (startCreatedF env fail x id t).1
@@ -459,21 +461,31 @@ theorem startTaskF_ok (env : Env) (fail : List String) (x : FW) (id : String) (t
     (startTaskF env fail x id t).2 = startOK env fail id t := by
   unfold startTaskF startOK; split
   · simp_all
-  · split <;> simp_all
+  · split
+    · simp_all
+    · split <;> simp_all
 
 /-- A start under faults: the storage errors of saveLastError are ignored, the running state is the model's. -/
 theorem startTaskF_view (env : Env) (fail : List String) (x : FW) (id : String) (t : Task) :
-    (startTaskF env fail x id t).1.w.view = if startOK env fail id t then x.w.view.setExec id true else x.w.view := by
-  unfold startTaskF startOK; split
+    (startTaskF env fail x id t).1.w.view =
+      if startOK env fail id t then x.w.view.setExec id true
+      else if batchRefused env fail id t then x.w.view.setExec id false else x.w.view := by
+  unfold startTaskF startOK batchRefused; split
   · simp_all
-  · split <;> simp_all
+  · split
+    · simp_all
+    · split
+      · simp_all [View.setExec_idem]
+      · simp_all
 
 theorem startTaskF_inv (env : Env) (fail : List String) (x : FW) (id : String) (t t' : Task)
     (h : ExecInv x.w) (ht : x.w.store.tasks id = some t') (he : t'.enabled = true) :
     ExecInv (startTaskF env fail x id t).1.w := by
   unfold ExecInv; rw [startTaskF_view]; split
   · exact View.EI.start h ht he
-  · exact h
+  · split
+    · exact View.EI.stop h id
+    · exact h
 
 theorem assocF_tasks (x : FW) (m k : String) (b : Bool) :
     (assocF x m k b).1.w.view.tasks = x.w.view.tasks ∧ (assocF x m k b).1.w.view.exec = x.w.view.exec := by
@@ -793,7 +805,9 @@ theorem startTaskF_sim0 {x : FW} {w : World} (h : Sim0 x w) (env : Env) (fail : 
   · exact ⟨h.note _ _, rfl⟩
   · split
     · exact ⟨(saveLastErrorF_sim0 (saveLastErrorF_sim0 h id) id).note _ _, rfl⟩
-    · exact ⟨((saveLastErrorF_sim0 h id).setExec id true).note _ _, rfl⟩
+    · split
+      · exact ⟨((saveLastErrorF_sim0 ((saveLastErrorF_sim0 h id).setExec id true) id).setExec id false).note _ _, rfl⟩
+      · exact ⟨((saveLastErrorF_sim0 h id).setExec id true).note _ _, rfl⟩
 
 theorem startCreatedF_sim0 {x : FW} {w : World} (h : Sim0 x w) (env : Env) (fail : List String) (id : String) (t : Task) :
     Sim0 (startCreatedF env fail x id t).1
@@ -1026,16 +1040,23 @@ theorem delViewF_nofault (w : World) (id : String) (t : Task) (k : Nat) (ht : w.
 /-! ### update under a fault -/
 
 /-- Closed form of the running-state part of an update, from ANY in-flight world. -/
-theorem finishUpdate_closed (env : Env) (fail : List String) (W2 : World) (id newId : String) (orig upd : Task) :
+theorem finishUpdate_closed (env : Env) (fail : List String) (W2 : World) (id newId : String) (orig upd : Task)
+    (hidle : upd.enabled = true → (orig.enabled = false ∨ id ≠ newId) → W2.exec newId = false) :
     (finishUpdate env fail W2 id newId orig upd).2 =
       (if upd.enabled = true ∧ (orig.enabled = false ∨ id ≠ newId) ∧ startOK env fail newId upd = false then .fail else .ok) ∧
     (finishUpdate env fail W2 id newId orig upd).1.view =
       { W2.view with exec := updExec W2.exec id newId orig.enabled upd.enabled (startOK env fail newId upd) } := by
   unfold finishUpdate
-  have hRv := restartRenamed_view env fail W2 id newId orig upd
+  have hRv := restartRenamed_view env fail W2 id newId orig upd (fun hne _ hue => hidle hue (Or.inr hne))
   have hRo := restartRenamed_ok env fail W2 id newId orig upd
-  generalize restartRenamed env fail W2 id newId orig upd = R at hRv hRo ⊢
-  have hAv := applyStatus_view env fail R.1 id newId orig upd
+  have hRidle : orig.enabled = false → upd.enabled = true → (restartRenamed env fail W2 id newId orig upd).1.exec newId = false := by
+    intro hoe hue
+    have := congrArg View.exec hRv
+    rw [if_neg (fun hh => by rw [hoe] at hh; exact Bool.noConfusion hh.2.1)] at this
+    simp only [view_exec] at this
+    rw [this]; exact hidle hue (Or.inl hoe)
+  generalize restartRenamed env fail W2 id newId orig upd = R at hRv hRo hRidle ⊢
+  have hAv := applyStatus_view env fail R.1 id newId orig upd hRidle
   have hAr := applyStatus_resp_eq env fail R.1 id newId orig upd
   rw [hRv] at hAv
   generalize applyStatus env fail R.1 id newId orig upd = A at hAv hAr ⊢
@@ -1049,13 +1070,14 @@ theorem finishUpdate_closed (env : Env) (fail : List String) (W2 : World) (id ne
       (apply View.ext' <;> first | rfl | (funext i; simp [updExec, hoe, hue, hk, hid, setExec_exec]))
 
 /-- … and the same closed form under ANY fault: the running-state part only runs saveLastError transactions. -/
-theorem finishUpdateF_closed (env : Env) (fail : List String) (X : FW) (id newId : String) (orig upd : Task) :
+theorem finishUpdateF_closed (env : Env) (fail : List String) (X : FW) (id newId : String) (orig upd : Task)
+    (hidle : upd.enabled = true → (orig.enabled = false ∨ id ≠ newId) → X.w.exec newId = false) :
     (finishUpdateF env fail X id newId orig upd).2 =
       (if upd.enabled = true ∧ (orig.enabled = false ∨ id ≠ newId) ∧ startOK env fail newId upd = false then .fail else .ok) ∧
     (finishUpdateF env fail X id newId orig upd).1.w.view =
       { X.w.view with exec := updExec X.w.exec id newId orig.enabled upd.enabled (startOK env fail newId upd) } := by
   obtain ⟨h1, h2⟩ := finishUpdateF_sim0' (Sim0.rfl X) env fail id newId orig upd
-  obtain ⟨c1, c2⟩ := finishUpdate_closed env fail X.w id newId orig upd
+  obtain ⟨c1, c2⟩ := finishUpdate_closed env fail X.w id newId orig upd hidle
   exact ⟨h2.trans c1, h1.view.trans c2⟩
 
 theorem storeDefinitionF_first_fault (x : FW) (id newId : String) (upd : Task) (hk : x.fault = some (x.w.ntx + 1)) :
@@ -1105,7 +1127,8 @@ association moves (errors answered 500 AFTER the running state was adjusted); th
    the old ID of a rename is removed unless k = 2 (then both IDs stay stored, the old one stopped); templates
    untouched; the answer is the fault-free one or 500 (an association write failed). -/
 theorem updateCommitF_fault (env : Env) (fail : List String) (w : World) (id newId : String) (orig upd : Task) (m : String)
-    (k : Nat) (h0 : w.ntx = 0) (ho : w.store.tasks id = some orig) (hfree : id ≠ newId → w.store.tasks newId = none) :
+    (k : Nat) (h0 : w.ntx = 0) (ho : w.store.tasks id = some orig) (hfree : id ≠ newId → w.store.tasks newId = none)
+    (hidle : upd.enabled = true → (orig.enabled = false ∨ id ≠ newId) → w.exec newId = false) :
     (k = 1 → (updateCommitF env fail ⟨w, some k, false⟩ id newId orig upd m).1.w.view = w.view ∧
              (updateCommitF env fail ⟨w, some k, false⟩ id newId orig upd m).2 = .fail) ∧
     (k ≠ 1 →
@@ -1176,6 +1199,9 @@ theorem updateCommitF_fault (env : Env) (fail : List String) (w : World) (id new
           · rfl
       obtain ⟨c1, c2⟩ := finishUpdateF_closed env fail
         (reassociateF (storeDefinitionF ⟨w, some k, false⟩ id newId upd).1 id orig m newId).1 id newId orig upd
+        (fun hue hor => by
+          have := hr.2; simp only [view_exec] at this hve
+          rw [this, hve]; exact hidle hue hor)
       have e1 := congrArg View.exec c2
       have e2 := congrArg View.tasks c2
       have e3 := congrArg View.tmpls c2
@@ -1188,6 +1214,9 @@ theorem updateCommitF_fault (env : Env) (fail : List String) (w : World) (id new
         · exact Or.inr c1
         · exact Or.inl _root_.rfl
     · obtain ⟨c1, c2⟩ := finishUpdateF_closed env fail (storeDefinitionF ⟨w, some k, false⟩ id newId upd).1 id newId orig upd
+        (fun hue hor => by
+          simp only [view_exec] at hve
+          rw [hve]; exact hidle hue hor)
       have e1 := congrArg View.exec c2
       have e2 := congrArg View.tasks c2
       have e3 := congrArg View.tmpls c2
